@@ -67,6 +67,12 @@ def opLoop (op : String) (a : List String) (st : DrvState) : Option (DrvState ×
   | "prop.loop.check", [id] => do
     let _ ← st.getLoop id
     pure (st, "ok")
+  | "prop.c16.once", [id] => do
+    let i ← st.getLoop id
+    match i.st.pc with
+    | .exited .ok => pure (st, "ok exited ok")
+    | .exited _ => pure (st, "ok exited err")
+    | _ => pure (st, "ok running")
   | "prop.fleet.converged", [] => some (st, "ok")
   | "bucket.rm", [inst, ts] => do
     let t ← natArg ts
